@@ -42,6 +42,40 @@ def _outer(t):
     return None, None
 
 
+def _invoked_helpers(run: Run, model: PyModel) -> list[str]:
+    """Abstract run of to_sql_where with every other converter method replaced by a marker clause: which helpers are invoked on the converter
+    (whatever holds the registry: decorator list, tuple of methods, explicit calls), each once, and every clause ends up under the AND."""
+    I = make_interp(model)
+    called: list[str] = []
+    for m in model.cls(AF).methods.values():
+        if m.name == "to_sql_where" or m.name.startswith("__"):
+            continue
+
+        def hook(I2, args, kwargs, st, node, _q=m.qualname):
+            called.append(_q)
+            return [(Term("clause", (_q.split(".")[-1],)), st)]
+
+        I.probes[m.qualname] = hook
+    st = State()
+    self_ = converter(st, and_filter(st))
+    try:
+        res = I.run_function(f"{AF}.to_sql_where", [self_], st=st)
+    except Exception as e:  # noqa: BLE001
+        run.undecided("C03.R1", "to_sql_where", f"cannot interpret: {type(e).__name__}: {str(e)[:100]}")
+        return []
+    tw = model.func(f"{AF}.to_sql_where")
+    if len(res) != 1 or res[0][1].imprecise or isinstance(res[0][0], Raised):
+        run.undecided("C03.R1", "to_sql_where", ("; ".join(res[0][1].imprecise[:2]) or repr(res[0][0])) if res else "no result")
+        return list(dict.fromkeys(called))
+    v = res[0][0]
+    marks = [t.args[0] for t in subterms(v) if isinstance(t, Term) and t.head == "clause"]
+    top = [v] if isinstance(v, Term) and v.head == "clause" else connective_args(v, "and_")
+    ok = len(called) == len(set(called)) and sorted(marks) == sorted(q.split(".")[-1] for q in called) and top is not None and len(top) == len(marks)
+    run.check("C03.R1", "to_sql_where invokes every helper once and ANDs all their clauses", ok, "to_sql_where", f"invoked {[q.split('.')[-1] for q in called]} -> {v!r}"[:200],
+              f"to_sql_where invokes {[q.split('.')[-1] for q in called]} and returns `{v!r}`"[:400] + ": a helper's clause is dropped, duplicated or not AND-ed", file=FILE, node=tw.node)
+    return list(dict.fromkeys(called))
+
+
 def check(run: Run) -> None:
     model = PyModel(run.repo)
     run.rule("C03.R1", "field coverage: every WhereAndFilter field is read by exactly one registered helper; to_sql_where iterates the registry; a helper returns None only when its fields are empty")
@@ -57,8 +91,8 @@ def check(run: Run) -> None:
     c04.check(sub)
     run.floor("adopted compiler obligations", run.adopt(sub, ("C04.R1", "C04.R4"), "C03.R6"), 40)
     I = make_interp(model)
-    helpers = model.table_members().get(f"{QC}._TO_SQL_WHERE_HELPERS", [])
-    run.floor("registered SQL helpers", len(helpers), 9)
+    helpers = _invoked_helpers(run, model)
+    run.floor("SQL helpers invoked by to_sql_where", len(helpers), 9)
 
     # ---------------------------------------------------------------- R1
     waf = model.cls("zorg.domain.models._query.WhereAndFilter")
@@ -75,13 +109,9 @@ def check(run: Run) -> None:
     for f in fields:
         rs = readers[f]
         reg = [r for r in rs if r in helpers]
-        run.check("C03.R1", f"`{f}` is translated by exactly one registered helper", len(rs) == 1 and len(reg) == 1, "_AndFilterToSqlWhere", f"{f}: readers {[r.split('.')[-1] for r in rs]}, registered {[r.split('.')[-1] for r in reg]}",
-                  f"filter field `{f}` is read by {[r.split('.')[-1] for r in rs]} of which {[r.split('.')[-1] for r in reg]} are registered with @_to_sql_where_helper: "
+        run.check("C03.R1", f"`{f}` is translated by exactly one helper that to_sql_where invokes", len(rs) == 1 and len(reg) == 1, "_AndFilterToSqlWhere", f"{f}: readers {[r.split('.')[-1] for r in rs]}, invoked {[r.split('.')[-1] for r in reg]}",
+                  f"filter field `{f}` is read by {[r.split('.')[-1] for r in rs]} of which {[r.split('.')[-1] for r in reg]} are invoked by to_sql_where (registered with @_to_sql_where_helper): "
                   + ("the filter is silently ignored" if not reg else "it is applied more than once / by the wrong helper"), file=FILE)
-    tw = model.func(f"{AF}.to_sql_where")
-    loops = [n for n in walk_no_nested(tw.node) if isinstance(n, ast.For) and "_TO_SQL_WHERE_HELPERS" in ast.unparse(n.iter)]
-    run.check("C03.R1", "to_sql_where iterates the helper registry", len(loops) == 1 and "sorted" not in ast.unparse(loops[0].iter) and "[" not in ast.unparse(loops[0].iter), "to_sql_where", "registry loop",
-              "to_sql_where does not iterate the whole helper registry", file=FILE, node=tw.node)
     for h in helpers:
         res = run_helper(I, h.split(".")[-1])
         vals = [v for v, _ in res]
